@@ -13,6 +13,8 @@
 //       equal, and equal c => equal GetHash()
 //   (D) one AttributesHashMap per filter fed with every line once: Size() and the per-series counts
 //       seen through GetAllEnteries are those of grouping the lines by c
+//   (E) the same line concretised a second time (fresh buffers, other representation choices such
+//       as -0.0 for +0.0, const char * for string_view) is the same set with the same hash
 // Mismatches are printed as JSON lines {"kind":...}; the last line is a summary.  Nothing is decided
 // here beyond equality with the values TLC computed.
 #include <algorithm>
@@ -97,12 +99,14 @@ int main(int argc, char **argv)
   std::set<std::pair<int, int>> used;
   for (int cidx = 0; cidx < nconc; ++cidx)
   {
-    int kt = cidx == 0 ? 0 : rng.below(4);
-    int vf = cidx == 0 ? 0 : rng.below(11);
+    // concretisations 0..2 are fixed: plain strings, "one value / several representations"
+    // (+0.0 / -0.0) and "easily conflated but different" (true / 1 / "1" / "" ...); the rest is drawn
+    int kt = cidx < 3 ? cidx : rng.below(4);
+    int vf = cidx == 0 ? 0 : cidx == 1 ? 11 : cidx == 2 ? 12 : rng.below(kNumValueFamilies);
     if (!used.insert({kt, vf}).second)
     {
       kt = (kt + 1) % 4;
-      vf = (vf + 3) % 11;
+      vf = (vf + 3) % kNumValueFamilies;
       used.insert({kt, vf});
     }
     std::map<std::string, std::vector<size_t>> groups;  // filter -> line indices
@@ -117,11 +121,25 @@ int main(int argc, char **argv)
       for (size_t i : g.second)
       {
         const Line &l = lines[i];
-        CallerAttrs ca;
+        CallerAttrs ca, ca2;
+        ca.rep = ca2.rep = &rng;
         for (auto &kv : l.s)
+        {
           ca.add(kt, vf, kv.at(0).get<int>(), kv.at(1).get<int>());
-        SeqIterable it(ca.kvs);
+          ca2.add(kt, vf, kv.at(0).get<int>(), kv.at(1).get<int>());
+        }
+        SeqIterable it(ca.kvs), it2(ca2.kvs);
         sdkm::MetricAttributes ma(it, proc.get());
+        {
+          // (E) the same sequence spelt a second time (fresh buffers, other representation choices)
+          sdkm::MetricAttributes m2(it2, proc.get());
+          ++checks;
+          if (!(ma == m2) || ma.GetHash() != m2.GetHash())
+            report({{"kind", "E: the same attribute sequence in another representation is a different set / hashes differently"},
+                    {"kt", kt}, {"vf", vf}, {"s", l.s}, {"f", l.f}, {"equal", ma == m2},
+                    {"same_hash", ma.GetHash() == m2.GetHash()}});
+        }
+        ca2.scribble_and_free();
         sdkm::MetricAttributes mb = proc->process(it);
         static_cast<sdkm::LongSumAggregation *>(
             table.GetOrSetDefault(it, proc.get(),
@@ -131,8 +149,8 @@ int main(int argc, char **argv)
             ->Aggregate((int64_t)1);
         ca.scribble_and_free();  // the SDK must own what it keeps
         bool o1 = false, o2 = false;
-        json pa = sorted_set(abstract_attrs(ma, kt, max_k, &o1));
-        json pb = sorted_set(abstract_attrs(mb, kt, max_k, &o2));
+        json pa = sorted_set(abstract_attrs(ma, kt, vf, max_k, &o1));
+        json pb = sorted_set(abstract_attrs(mb, kt, vf, max_k, &o2));
         checks += 2;
         if (o1 || pa != l.c || pa.size() != ma.size())
           report({{"kind", "A: MetricAttributes(iterable, processor) differs from Canon"}, {"kt", kt}, {"vf", vf},
@@ -164,7 +182,7 @@ int main(int argc, char **argv)
       std::map<std::string, long> got_count;
       table.GetAllEnteries([&](const sdkm::MetricAttributes &attrs, sdkm::Aggregation &agg) {
         bool o = false;
-        json k = sorted_set(abstract_attrs(attrs, kt, max_k, &o));
+        json k = sorted_set(abstract_attrs(attrs, kt, vf, max_k, &o));
         auto pt = nostd::get<sdkm::SumPointData>(agg.ToPoint());
         got_count[o ? std::string("OVF") : k.dump()] += (long)nostd::get<int64_t>(pt.value_);
         return true;
